@@ -324,7 +324,7 @@ func useTimeModel(in *Interp, tm *timeModel) {
 			if w, ok := dateOf(tm, args[1]); ok {
 				tm.before = append(tm.before, w)
 			} else {
-				in.fail("time model: Before against a non-constant instant")
+				in.fail("time model: Before against a non-constant instant %s", showVal(args[1]))
 			}
 			return boolArg("before"), true
 		case "(time.Time).Sub":
@@ -352,6 +352,20 @@ func useTimeModel(in *Interp, tm *timeModel) {
 		case "(time.Duration).Nanoseconds":
 			return args[0], true
 		case "(time.Time).Add":
+			// the epoch may have been chosen first and added to once
+			if mv, isMux := args[0].(*MuxV); isMux {
+				wt, okT := dateOf(tm, mv.T)
+				wf, okF := dateOf(tm, mv.F)
+				if d, okD := args[1].(*BV); okT && okF && okD {
+					for _, w := range []string{wt, wf} {
+						tm.adds = append(tm.adds, struct {
+							base string
+							dur  *BV
+						}{w, d})
+					}
+					return &MuxV{C: mv.C, T: &OpaqueV{Why: "add:" + wt, T: rt.At(0).Type()}, F: &OpaqueV{Why: "add:" + wf, T: rt.At(0).Type()}}, true
+				}
+			}
 			w, ok := dateOf(tm, args[0])
 			d, ok2 := args[1].(*BV)
 			if !ok || !ok2 {
@@ -368,6 +382,10 @@ func useTimeModel(in *Interp, tm *timeModel) {
 	}
 }
 
+// the epochs may be package-level variables: the package initialiser is
+// evaluated under the time model first
+var ebpPkg = "ebp"
+
 func (c *Checker) runEBPTime(thorough bool) {
 	ins, err1 := c.P.Func("ebp:insertUtcTime")
 	ext, err2 := c.P.Func("ebp:extractUtcTime")
@@ -376,8 +394,8 @@ func (c *Checker) runEBPTime(thorough bool) {
 		return
 	}
 	var tmI, tmE timeModel
-	sI := Analyze(c.P, ins, &AnalyzeOpts{Setup: func(in *Interp) { useTimeModel(in, &tmI) }})
-	sE := Analyze(c.P, ext, &AnalyzeOpts{Setup: func(in *Interp) { useTimeModel(in, &tmE) }})
+	sI := Analyze(c.P, ins, &AnalyzeOpts{InitPkg: &ebpPkg, Setup: func(in *Interp) { useTimeModel(in, &tmI) }})
+	sE := Analyze(c.P, ext, &AnalyzeOpts{InitPkg: &ebpPkg, Setup: func(in *Interp) { useTimeModel(in, &tmE) }})
 	if sI.Failed != "" || sE.Failed != "" {
 		c.undecided("C12.time", "ebp:insertUtcTime", "formula extraction", sI.Failed+" "+sE.Failed)
 		return
@@ -467,7 +485,7 @@ func (c *Checker) runEBPTime(thorough bool) {
 			bad = err.Error()
 		} else {
 			var tm timeModel
-			sm := Analyze(c.P, set, &AnalyzeOpts{Setup: func(in *Interp) { useTimeModel(in, &tm) }})
+			sm := Analyze(c.P, set, &AnalyzeOpts{InitPkg: &ebpPkg, Setup: func(in *Interp) { useTimeModel(in, &tm) }})
 			o := paramObj(sm, 0)
 			if sm.Failed != "" || o == nil {
 				bad = "SetEBPTime: " + sm.Failed
@@ -486,7 +504,7 @@ func (c *Checker) runEBPTime(thorough bool) {
 			bad = err.Error()
 		} else {
 			var tm timeModel
-			sm := Analyze(c.P, get, &AnalyzeOpts{Setup: func(in *Interp) { useTimeModel(in, &tm) }, Pre: func(in *Interp, st *State, ps []Val) {
+			sm := Analyze(c.P, get, &AnalyzeOpts{InitPkg: &ebpPkg, Setup: func(in *Interp) { useTimeModel(in, &tm) }, Pre: func(in *Interp, st *State, ps []Val) {
 				o := ps[0].(*Ptr).Obj
 				in.setCell(st, o, fmt.Sprint(fieldIx(o.T, "TimeSeconds")), seconds)
 				in.setCell(st, o, fmt.Sprint(fieldIx(o.T, "TimeFraction")), fraction)
